@@ -1087,6 +1087,45 @@ func fetchSection(srv *server, bc *bconn, box string, seq int, cm *corpusMsg, f 
 	}
 }
 
+// section mismatches are keyed at the end: a specifier that is wrong on three or more corpus
+// messages is one defect of that specifier, otherwise the defect is tied to the message
+type ffail struct {
+	msg, sec string
+	det      map[string]interface{}
+}
+
+var ffailMu sync.Mutex
+var ffails []ffail
+
+func fetchFailure(msg, sec string, det map[string]interface{}) {
+	ffailMu.Lock()
+	defer ffailMu.Unlock()
+	v, _ := bViol.LoadOrStore("fetch-section-mismatch(all)", new(int64))
+	atomic.AddInt64(v.(*int64), 1)
+	if len(ffails) < 20000 {
+		ffails = append(ffails, ffail{msg, sec, det})
+	}
+}
+
+func flushFetchFailures() {
+	ffailMu.Lock()
+	defer ffailMu.Unlock()
+	msgsPerSec := map[string]map[string]bool{}
+	for _, f := range ffails {
+		if msgsPerSec[f.sec] == nil {
+			msgsPerSec[f.sec] = map[string]bool{}
+		}
+		msgsPerSec[f.sec][f.msg] = true
+	}
+	for _, f := range ffails {
+		if len(msgsPerSec[f.sec]) >= 3 {
+			bViolation("fetch-section-mismatch:"+f.sec, f.det)
+		} else {
+			bViolation(fmt.Sprintf("fetch-section-mismatch:%s:%s", f.msg, f.sec), f.det)
+		}
+	}
+}
+
 func checkFetch(srv *server, box string, seq int, cm *corpusMsg, f fsection, p partial, peek bool, alts []string, specified bool, fullOK bool, r0, r, r2 reply) (contentOK bool) {
 	atomic.AddInt64(&bst.fetchCmds, 1)
 	pk := "none"
@@ -1194,7 +1233,7 @@ func checkFetch(srv *server, box string, seq int, cm *corpusMsg, f fsection, p p
 			// the whole section is right, only the slice is wrong
 			bViolation("fetch-partial-slice-mismatch", det(map[string]interface{}{"got": got, "want_one_of": wants}))
 		} else {
-			bViolation(fmt.Sprintf("fetch-section-mismatch:%s:%s", cm.name, sec), det(map[string]interface{}{"got": got, "want_one_of": wants}))
+			fetchFailure(cm.name, sec, det(map[string]interface{}{"got": got, "want_one_of": wants}))
 		}
 		return false
 	}
@@ -1464,6 +1503,7 @@ func partB() {
 	t2 := time.Now()
 	partBList()
 	partBMisc()
+	flushFetchFailures()
 	flushBViolations()
 	fmt.Printf("  [B] search %d commands (%.1fs), fetch %d commands (%d compared with the section table, %d on parts that do not exist, %d on unspecified sections) (%.1fs), list %d, misc %d; %d commands ended with a dead connection\n",
 		bst.searchCmds, t1.Sub(t0).Seconds(), bst.fetchCmds, bst.fetchCompared, bst.fetchMissing, bst.fetchUnspecified, t2.Sub(t1).Seconds(), bst.listCmds, bst.miscCmds, bst.crashes)
